@@ -45,6 +45,7 @@ def run(tier, seed):
         b.emit("mdec rs2 es"); b.emit("meq rs2 sib", "1"); b.emit("meq rs2 m", "0")
         # protobuf message and streaming forms
         b.emit("mproto Q m", "ok"); b.emit("mfromproto p Q", "ok"); same_behaviour("p")
+        b.emit("mproto Qs sib", "ok"); b.emit("mfromproto ps Qs", "ok"); b.emit("mfromproto p1 Q", "ok"); same_behaviour("p1"); b.emit("meq ps sib", "1"); b.emit("meq ps m", "0")
         b.emit("mstream sb m", "ok"); b.emit("mpunmarshal Q2 sb", "ok"); jq = b.emit("mpobs Q"); b.emit("mpobs Q2", ("same", jq))
         b.emit("mfromproto p2 Q2", "ok"); b.emit("meq m p2", "1")
         b.emit("mpmarshal mb Q", "ok"); b.emit("mpunmarshal Q3 mb", "ok"); b.emit("mpobs Q3", ("same", jq))
